@@ -324,6 +324,7 @@ class Engine:
         self.feas_cache = {}
         self.models = {}
         self.opaque = None  # predicate(callee dict) -> bool : treat as uninterpreted function
+        self.index_split = True  # split a path on the value of a small-range symbolic index of an array read
         self.hooks = {}  # callee path suffix -> model override
         self.hooks_by_id = {}  # resolved fn id -> model override
         self.stats = {"paths": 0, "steps": 0, "fm": 0, "asserts": 0, "asserts_const": 0, "calls_inlined": 0,
@@ -1452,6 +1453,10 @@ class Engine:
             if s["k"] == "a":
                 p = s["p"]
                 dest_tid = self.place_tid(fr, p)
+                if self.index_split:
+                    sp = self._split_on_index(st, fr, s)
+                    if sp is not None:
+                        return sp
                 res = self.rvalue(st, fr, s["r"], dest_tid)
                 out = []
                 for s2, v in res:
@@ -1465,6 +1470,43 @@ class Engine:
                 self.write_place(st, fr, s["p"], Enum(tid, s["variant"], fs))
             return [st]
         return self.terminator(st, fr, blk["t"])
+
+    def _split_on_index(self, st, fr, s):
+        """`TABLE[i]` read with an index that is not a constant on this path but ranges over a few values (`ALL[u % 7]`): the path
+        is split by the value of the index, so that the element read is the table's own entry instead of an unknown.  Returns the
+        split states (the statement is re-executed on each) or None."""
+        def idx_locals(o):
+            out = []
+            if isinstance(o, dict):
+                for k in ("cp", "mv"):
+                    pl = o.get(k)
+                    if isinstance(pl, dict):
+                        out += [e["idx"] for e in pl.get("pj", []) if isinstance(e, dict) and "idx" in e]
+            return out
+        r = s["r"]
+        cands = []
+        for key in ("x", "l", "r"):
+            if key in r:
+                cands += idx_locals(r[key])
+        for x in r.get("xs", []) or []:
+            cands += idx_locals(x)
+        if r.get("op") == "ref" and isinstance(r.get("p"), dict):
+            cands += [e["idx"] for e in r["p"].get("pj", []) if isinstance(e, dict) and "idx" in e]
+        for l in cands:
+            iv = st.store.get((fr.fid, l))
+            if not isinstance(iv, Int) or self.const_of(st, iv) is not None:
+                continue
+            lo, hi = self.fm_bounds(st, iv.lin)
+            if lo == -INF or hi == INF or hi - lo > 16 or hi - lo < 1:
+                continue
+            out = []
+            for v in range(int(lo), int(hi) + 1):
+                for s2 in self.assume(st.clone(), c_lin("eq", iv.lin - v)):
+                    s2.frames[-1].si -= 1  # re-execute the statement with the index decided
+                    out.append(s2)
+            if out:
+                return out
+        return None
 
     def place_tid(self, fr, p):
         tid = self.local_tid(fr, p["l"])
